@@ -288,10 +288,13 @@ def rule_label(repo: Repo, rep: Report) -> int:
 
 def search_tabulated(ci: ClassInfo, fi: FuncInfo):
     """The modulator's forward run (own arithmetic) on every bit group, with a *permuted* label table and distinct marker
-    points: the group that is row i of the table must be sent as point i (finite: all 2^b groups, b = 2 and 4)."""
+    points: the group that is row i of the table must be sent as point i (finite: all 2^b groups, b = 2, 4 and 8)."""
     funcs = {f"self.{nm}": f_.node for nm, f_ in ci.methods.items() if nm not in ("forward", "__init__")}
+    funcs.update({nm: f_.node for nm, f_ in ci.module.functions.items()})
+    # module-level literal constants (block sizes, thresholds) the forward may read
+    consts = {st_.targets[0].id: st_.value.value for st_ in ci.module.tree.body if isinstance(st_, ast.Assign) and len(st_.targets) == 1 and isinstance(st_.targets[0], ast.Name) and isinstance(st_.value, ast.Constant) and isinstance(st_.value.value, (int, float)) and not isinstance(st_.value.value, bool)}
     count = 0
-    for b in (2, 4):
+    for b in (2, 4, 8):  # 8: the largest registered order (256 points) - a table handled in blocks needs more than one block
         M = 2**b
         perm = [(5 * i + 3) % M for i in range(M)]  # a permutation of 0..M-1 (5 is odd)
         table = [[float(v) for v in bits_of(perm[i], b)] for i in range(M)]
@@ -301,7 +304,7 @@ def search_tabulated(ci: ClassInfo, fi: FuncInfo):
         for layout in ("flat", "batch"):
             xin = x if layout == "flat" else [x[: len(x) // 2], x[len(x) // 2:]]
             try:
-                run_fragment(fi.body, {"x": xin, "args": [], "kwargs": {}}, attrs, funcs=funcs, materialise=True, max_steps=400000)
+                run_fragment(fi.body, dict(consts, x=xin, args=[], kwargs={}), attrs, funcs=funcs, materialise=True, max_steps=40000000)
                 return None, "no value returned"
             except FragReturn as ret:
                 out = ret.value
